@@ -5,7 +5,7 @@
    DETERMINES the reference / the constant, so the assembler cannot be handed an ambiguous operand. *)
 From Avo Require Import Base.Prelude Base.Str.
 From stdpp Require Import gmap.
-From Avo Require Import Base.MaskSet Model.IR Model.RegFile Model.Data Model.AsmSyntax Proofs.DataProofs Proofs.SyntaxProofs.
+From Avo Require Import Base.MaskSet Model.IR Model.RegFile Model.Data Model.AsmSyntax Proofs.DataProofs Proofs.SyntaxProofs Model.MemOps Proofs.MemOpsProofs.
 Open Scope string_scope.
 Open Scope N_scope.
 
@@ -68,3 +68,18 @@ Proof.
   rewrite !H by auto. reflexivity.
 Qed.
 Print Assumptions virtual_names_are_plain.
+
+(* the helpers a user builds memory references with (NewStackAddr, NewParamAddr, NewDataAddr,
+   Mem.Offset, Mem.Idx): for every chain of calls the step-by-step model yields the reference the
+   chain describes: base and symbol of the constructor, the constructor's offset plus every Offset,
+   index and scale of the last Idx; in particular Idx leaves the displacement alone and Offset
+   leaves base, index, scale and symbol alone.  The real helpers are run on generated chains on
+   every run and compared with mem_spec (Gen/C05/MemOps.v, Gen/C16/MemOps.v). *)
+Theorem helper_chain_builds_the_described_reference : forall sp fp sb c ops,
+  mem_chain sp fp sb c ops = mem_spec sp fp sb c ops.
+Proof. exact mem_chain_is_spec. Qed.
+Print Assumptions helper_chain_builds_the_described_reference.
+Theorem idx_keeps_the_displacement : forall b i s d y t r sc,
+  mem_apply (OMem b i s d y t) (MIdx r sc) = OMem b (Some r) sc d y t.
+Proof. exact idx_keeps_displacement. Qed.
+Print Assumptions idx_keeps_the_displacement.
